@@ -44,6 +44,8 @@ func checkC03(c *Ctx) {
 	ruleLostUpdateOnCopy(c, "C03.o", "imapclient")
 	c.rule("C03.p", "the wire encoder never re-encodes a string rune by rune (bytes that are not valid UTF-8 survive)", 1)
 	ruleNoRuneReencoding(c, "C03.p")
+	c.rule("C03.q", "no item is sent ahead of one held back in a one-slot buffer (LIST-STATUS entries keep their order and their STATUS)", 1)
+	ruleNoOvertakingHeldItem(c, "C03.q")
 	ruleOptionDefaulting(c, "C03.h")
 }
 
